@@ -384,6 +384,8 @@ func (p *Process) stopProcess(cancelReadinessFuncs bool) error {
 		log.Debug().Msgf("process %s is in state %s not shutting down", p.getName(), p.getStatusName())
 		// prevent pending process from running
 		if p.isOneOfStates(types.ProcessStatePending) {
+			// it never ran: it must not count as completed successfully for its dependents
+			p.setExitCode(1)
 			p.onProcessEnd(types.ProcessStateTerminating)
 		}
 		return nil
